@@ -1,0 +1,388 @@
+//go:build verif
+
+package art
+
+// Verification-only accessors (build tag "verif"). Nothing in this file is
+// compiled into a normal build. Everything here is read-only with respect to
+// trees, except VerifPoisonStale (which overwrites bytes no correct code may
+// interpret) and VerifNodeHandle (which only touches nodes it created).
+
+import (
+	"unsafe"
+)
+
+// VerifMaxPrefixLen is the inline compressed-path limit.
+const VerifMaxPrefixLen = maxPrefixLen
+
+// VerifCapacity returns the capacity of each inner size class.
+func VerifCapacity() [4]int {
+	return [4]int{int(maxNode4), int(maxNode16), int(maxNode48), maxNode256}
+}
+
+// VerifNode is a structural dump of one node.
+type VerifNode struct {
+	Kind        int // 0..3 inner size classes, 4 leaf
+	Addr        uintptr
+	ChildrenLen int
+	PrefixLen   int
+	Prefix      [maxPrefixLen]byte
+	// RawKeys: node4 -> 4 lanes of the packed word, node16 -> 16 lanes,
+	// node48 -> the 256-entry index, node256/leaf -> nil.
+	RawKeys []byte
+	// Edges in slot order (node4/16: lanes 0..ChildrenLen-1; node48/256: ascending byte).
+	Edges []VerifEdge
+	// StaleSlots counts child slots that hold a non-nil pointer but are not
+	// reachable through the key lanes / index (retained garbage, never a verdict alone).
+	StaleSlots int
+
+	// leaves only
+	Key          []byte
+	TransformKey []byte
+	Value        any
+}
+
+type VerifEdge struct {
+	Byte  byte
+	Slot  int
+	Child *VerifNode
+}
+
+type verifTree interface {
+	verifRoot() *nodeRef
+	verifLeaf(unsafe.Pointer) (key, tkey []byte, val any)
+}
+
+func (t *alphaSortedTree[K, V]) verifRoot() *nodeRef { return &t.root }
+func (t *alphaSortedTree[K, V]) verifLeaf(p unsafe.Pointer) ([]byte, []byte, any) {
+	l := (*alphaLeafNode[V])(p)
+	return l.getKey(), l.getTransformKey(), l.value
+}
+
+func (t *unsignedSortedTree[K, V]) verifRoot() *nodeRef { return &t.root }
+func (t *unsignedSortedTree[K, V]) verifLeaf(p unsafe.Pointer) ([]byte, []byte, any) {
+	l := (*unsignedLeafNode[V])(p)
+	return l.getKey(), l.getTransformKey(), l.value
+}
+
+func (t *signedSortedTree[K, V]) verifRoot() *nodeRef { return &t.root }
+func (t *signedSortedTree[K, V]) verifLeaf(p unsafe.Pointer) ([]byte, []byte, any) {
+	l := (*signedLeafNode[V])(p)
+	return l.getKey(), l.getTransformKey(), l.value
+}
+
+func (t *floatSortedTree[K, V]) verifRoot() *nodeRef { return &t.root }
+func (t *floatSortedTree[K, V]) verifLeaf(p unsafe.Pointer) ([]byte, []byte, any) {
+	l := (*floatLeafNode[V])(p)
+	return l.getKey(), l.getTransformKey(), l.value
+}
+
+func (t *compoundSortedTree[K, V]) verifRoot() *nodeRef { return &t.root }
+func (t *compoundSortedTree[K, V]) verifLeaf(p unsafe.Pointer) ([]byte, []byte, any) {
+	l := (*compoundLeafNode[V])(p)
+	return l.getKey(), l.getTransformKey(), l.value
+}
+
+func (t *collationSortedTree[K, V]) verifRoot() *nodeRef { return &t.root }
+func (t *collationSortedTree[K, V]) verifLeaf(p unsafe.Pointer) ([]byte, []byte, any) {
+	l := (*collateLeafNode[V])(p)
+	return l.getKey(), l.getTransformKey(), l.value
+}
+
+// VerifDump walks the tree and returns its complete structure (nil for an
+// empty tree). ok is false when tree is not one of this package's trees.
+func VerifDump(tree any) (root *VerifNode, ok bool) {
+	vt, ok := tree.(verifTree)
+	if !ok {
+		return nil, false
+	}
+	r := vt.verifRoot()
+	if r.pointer == nil {
+		return nil, true
+	}
+	return verifDumpRef(*r, vt.verifLeaf), true
+}
+
+func verifDumpRef(ref nodeRef, leaf func(unsafe.Pointer) ([]byte, []byte, any)) *VerifNode {
+	out := &VerifNode{Kind: int(ref.tag), Addr: uintptr(ref.pointer)}
+	if ref.tag == nodeKindLeaf {
+		k, tk, v := leaf(ref.pointer)
+		out.Key = append([]byte(nil), k...)
+		out.TransformKey = append([]byte(nil), tk...)
+		out.Value = v
+		return out
+	}
+	n := ref.node()
+	out.ChildrenLen = int(n.childrenLen)
+	out.PrefixLen = int(n.prefixLen)
+	out.Prefix = n.prefix
+	switch ref.tag {
+	case nodeKind4:
+		n4 := (*node4)(ref.pointer)
+		out.RawKeys = deconstruct(n4.keys)
+		cnt := min(int(n4.childrenLen), len(n4.children))
+		for i := 0; i < cnt; i++ {
+			out.Edges = append(out.Edges, VerifEdge{Byte: out.RawKeys[i], Slot: i, Child: verifChild(n4.children[i], leaf)})
+		}
+		for i := cnt; i < len(n4.children); i++ {
+			if n4.children[i].pointer != nil {
+				out.StaleSlots++
+			}
+		}
+	case nodeKind16:
+		n16 := (*node16)(ref.pointer)
+		out.RawKeys = append([]byte(nil), n16.keys[:]...)
+		cnt := min(int(n16.childrenLen), len(n16.children))
+		for i := 0; i < cnt; i++ {
+			out.Edges = append(out.Edges, VerifEdge{Byte: n16.keys[i], Slot: i, Child: verifChild(n16.children[i], leaf)})
+		}
+		for i := cnt; i < len(n16.children); i++ {
+			if n16.children[i].pointer != nil {
+				out.StaleSlots++
+			}
+		}
+	case nodeKind48:
+		n48 := (*node48)(ref.pointer)
+		out.RawKeys = append([]byte(nil), n48.keys[:]...)
+		var used [maxNode48]bool
+		for b := 0; b < 256; b++ {
+			idx := n48.keys[b]
+			if idx == 0 {
+				continue
+			}
+			slot := int(idx) - 1
+			var child *VerifNode
+			if slot < len(n48.children) {
+				used[slot] = true
+				child = verifChild(n48.children[slot], leaf)
+			}
+			out.Edges = append(out.Edges, VerifEdge{Byte: byte(b), Slot: slot, Child: child})
+		}
+		for i := range n48.children {
+			if !used[i] && n48.children[i].pointer != nil {
+				out.StaleSlots++
+			}
+		}
+	case nodeKind256:
+		n256 := (*node256)(ref.pointer)
+		for b := 0; b < 256; b++ {
+			if n256.children[b].pointer != nil {
+				out.Edges = append(out.Edges, VerifEdge{Byte: byte(b), Slot: b, Child: verifChild(n256.children[b], leaf)})
+			}
+		}
+	}
+	return out
+}
+
+func verifChild(ref nodeRef, leaf func(unsafe.Pointer) ([]byte, []byte, any)) *VerifNode {
+	if ref.pointer == nil {
+		return nil
+	}
+	return verifDumpRef(ref, leaf)
+}
+
+// VerifPoisonStale overwrites, in every inner node of the tree, the inline
+// compressed-path bytes beyond min(limit, length) and the node16 key lanes at
+// or beyond the fan-out: bytes that correct code never interprets. fill gets
+// the key position the byte would stand for if it were (wrongly) interpreted.
+func VerifPoisonStale(tree any, fill func(keyPos int) byte) bool {
+	vt, ok := tree.(verifTree)
+	if !ok {
+		return false
+	}
+	r := vt.verifRoot()
+	if r.pointer != nil {
+		verifPoison(*r, 0, fill)
+	}
+	return true
+}
+
+func verifPoison(ref nodeRef, depth int, fill func(int) byte) {
+	if ref.pointer == nil || ref.tag == nodeKindLeaf {
+		return
+	}
+	n := ref.node()
+	for i := int(min(uint32(maxPrefixLen), n.prefixLen)); i < maxPrefixLen; i++ {
+		n.prefix[i] = fill(depth + i)
+	}
+	depth += int(n.prefixLen)
+	switch ref.tag {
+	case nodeKind4:
+		n4 := (*node4)(ref.pointer)
+		for i := 0; i < int(n4.childrenLen) && i < len(n4.children); i++ {
+			verifPoison(n4.children[i], depth+1, fill)
+		}
+	case nodeKind16:
+		n16 := (*node16)(ref.pointer)
+		for i := int(n16.childrenLen); i < len(n16.keys); i++ {
+			n16.keys[i] = fill(depth)
+		}
+		for i := 0; i < int(n16.childrenLen) && i < len(n16.children); i++ {
+			verifPoison(n16.children[i], depth+1, fill)
+		}
+	case nodeKind48:
+		n48 := (*node48)(ref.pointer)
+		for b := 0; b < 256; b++ {
+			if idx := n48.keys[b]; idx != 0 && int(idx) <= len(n48.children) {
+				verifPoison(n48.children[idx-1], depth+1, fill)
+			}
+		}
+	case nodeKind256:
+		n256 := (*node256)(ref.pointer)
+		for b := 0; b < 256; b++ {
+			verifPoison(n256.children[b], depth+1, fill)
+		}
+	}
+}
+
+// ---- bare node driving (C10) ----
+
+type verifDummyLeaf struct{ id int }
+
+// VerifNodeHandle owns one inner node (initially an empty 4-slot node taken
+// from the pool, as the trees do) whose children are dummy leaves carrying ids.
+type VerifNodeHandle struct {
+	ref nodeRef
+}
+
+func NewVerifNodeHandle() *VerifNodeHandle {
+	n4 := nodePools[nodeKind4].Get().(*node4)
+	return &VerifNodeHandle{ref: nodeRef{pointer: unsafe.Pointer(n4), tag: nodeKind4}}
+}
+
+// SetPrefix gives the node a compressed path (so that grow/shrink must carry it).
+func (h *VerifNodeHandle) SetPrefix(p []byte) {
+	n := h.ref.node()
+	n.prefixLen = uint32(len(p))
+	copy(n.prefix[:], p)
+}
+
+// Collapsed reports whether the node has been replaced by its last child.
+func (h *VerifNodeHandle) Collapsed() (id int, collapsed bool) {
+	if h.ref.tag == nodeKindLeaf {
+		return (*verifDummyLeaf)(h.ref.pointer).id, true
+	}
+	return 0, false
+}
+
+func (h *VerifNodeHandle) Kind() int { return int(h.ref.tag) }
+
+func (h *VerifNodeHandle) Add(b byte, id int) {
+	child := nodeRef{pointer: unsafe.Pointer(&verifDummyLeaf{id: id}), tag: nodeKindLeaf}
+	h.ref.addChild(b, child)
+}
+
+func (h *VerifNodeHandle) Remove(b byte) { h.ref.deleteChild(b) }
+
+func (h *VerifNodeHandle) Find(b byte) (id int, ok bool) {
+	c := h.ref.findChild(b)
+	if c == nil {
+		return 0, false
+	}
+	if c.pointer == nil || c.tag != nodeKindLeaf {
+		return -1, true
+	}
+	return (*verifDummyLeaf)(c.pointer).id, true
+}
+
+func verifDummyRestore(p unsafe.Pointer) (int, int) { return (*verifDummyLeaf)(p).id, 0 }
+
+// Forward / Reverse enumerate the children with the package's own iterators.
+func (h *VerifNodeHandle) Forward() []int {
+	var out []int
+	all[int, int](h.ref, verifDummyRestore)(func(id, _ int) bool { out = append(out, id); return true })
+	return out
+}
+
+func (h *VerifNodeHandle) Reverse() []int {
+	var out []int
+	backward[int, int](h.ref, verifDummyRestore)(func(id, _ int) bool { out = append(out, id); return true })
+	return out
+}
+
+// Min / Max use the package's extreme-leaf descent (-1: none).
+func (h *VerifNodeHandle) Min() int {
+	if p := minimum[int](h.ref); p != nil {
+		return (*verifDummyLeaf)(p).id
+	}
+	return -1
+}
+
+func (h *VerifNodeHandle) Max() int {
+	if p := maximum[int](h.ref); p != nil {
+		return (*verifDummyLeaf)(p).id
+	}
+	return -1
+}
+
+// Raw dumps the node (children are dummy leaves: Value holds the id).
+func (h *VerifNodeHandle) Raw() *VerifNode {
+	return verifDumpRef(h.ref, func(p unsafe.Pointer) ([]byte, []byte, any) {
+		return nil, nil, (*verifDummyLeaf)(p).id
+	})
+}
+
+// ---- primitives (C10) ----
+
+func VerifSearchNode4(keys uint32, b byte) int    { return searchNode4(keys, b) }
+func VerifInsertPosNode4(keys uint32, b byte) int { return insertPosNode4(keys, b) }
+func VerifSearchNode16(keys *[16]byte, n uint8, b byte) int {
+	return searchNode16(keys, n, b)
+}
+func VerifInsertPosNode16(keys *[16]byte, n uint8, b byte) int {
+	return insertPosNode16(keys, n, b)
+}
+func VerifGetAtPos(keys uint32, pos int) byte { return getAtPos(keys, pos) }
+func VerifSetAtPos(keys uint32, pos int, b byte) uint32 {
+	setAtPos(&keys, pos, b)
+	return keys
+}
+func VerifShiftLeftClear(keys uint32, pos int) uint32 {
+	shiftLeftClear(&keys, pos)
+	return keys
+}
+func VerifShiftRightClear(keys uint32, pos int) uint32 {
+	shiftRightClear(&keys, pos)
+	return keys
+}
+func VerifConstruct(a, b, c, d byte) uint32 { return construct(a, b, c, d) }
+func VerifDeconstruct(keys uint32) []byte   { return deconstruct(keys) }
+
+// ---- pool audit (diagnostic only) ----
+
+// VerifPoolAudit takes up to n objects from each real pool, reports how many
+// of them are not in the all-zero state, and puts them back.
+func VerifPoolAudit(n int) (dirty [4]int) {
+	var n4s []*node4
+	var n16s []*node16
+	var n48s []*node48
+	var n256s []*node256
+	for i := 0; i < n; i++ {
+		a := nodePools[nodeKind4].Get().(*node4)
+		if *a != (node4{}) {
+			dirty[0]++
+		}
+		n4s = append(n4s, a)
+		b := nodePools[nodeKind16].Get().(*node16)
+		if *b != (node16{}) {
+			dirty[1]++
+		}
+		n16s = append(n16s, b)
+		c := nodePools[nodeKind48].Get().(*node48)
+		if *c != (node48{}) {
+			dirty[2]++
+		}
+		n48s = append(n48s, c)
+		d := nodePools[nodeKind256].Get().(*node256)
+		if *d != (node256{}) {
+			dirty[3]++
+		}
+		n256s = append(n256s, d)
+	}
+	for i := range n4s {
+		nodePools[nodeKind4].Put(n4s[i])
+		nodePools[nodeKind16].Put(n16s[i])
+		nodePools[nodeKind48].Put(n48s[i])
+		nodePools[nodeKind256].Put(n256s[i])
+	}
+	return dirty
+}
